@@ -2,6 +2,7 @@ package c20
 
 import (
 	"bytes"
+	"flag"
 	"net/http"
 	"net/http/httptest"
 	"strconv"
@@ -18,7 +19,9 @@ import (
 // ServeContent) to the generated headers must all be accepted. A failure here
 // is a defect of the harness, not of martian (the driver reports it as
 // inconclusive). One known deviation of net/http is left out: it answers a
-// zero-length suffix ("-0") with an empty 206 instead of 416.
+// suffix that selects nothing ("-0", or any suffix over empty content) with an
+// empty 206 instead of 416; and its 206 answers to headers with an unreadable
+// element (it skips them unread when the first position is past the content).
 func TestOracleAcceptsNetHTTP(t *testing.T) {
 	if kit.Race() {
 		t.Skip()
@@ -28,8 +31,8 @@ func TestOracleAcceptsNetHTTP(t *testing.T) {
 	}, n int, seed uint64, h string) {
 		p := parseRange(h)
 		for _, s := range p.specs {
-			if s.Kind == kindSuffix && s.B == 0 {
-				return
+			if s.Kind == kindSuffix && (s.B == 0 || n == 0) {
+				return // net/http answers a suffix that selects nothing with an empty 206
 			}
 		}
 		content := kit.Bytes(seed, n)
@@ -44,6 +47,12 @@ func TestOracleAcceptsNetHTTP(t *testing.T) {
 		if cl, err := strconv.ParseInt(rec.Header().Get("Content-Length"), 10, 64); err == nil {
 			o.CL = cl
 		}
+		if !p.ok && o.Status == http.StatusPartialContent {
+			// net/http stops reading a spec once its first position is past the
+			// content, so garbage after it goes unnoticed: not an answer the
+			// judge has to accept.
+			return
+		}
 		if v := judge("nethttp", content, h, o); len(v) > 0 {
 			t.Fatalf("the judge rejects net/http's answer (status %d) to Range %q over %d bytes: %s: %s", o.Status, h, n, v[0].Sig, v[0].Msg)
 		}
@@ -55,6 +64,7 @@ func TestOracleAcceptsNetHTTP(t *testing.T) {
 			}
 		}
 	}
+	flag.Set("rapid.nofailfile", "true")
 	rapid.Check(t, func(rt *rapid.T) {
 		n := genLen(rt)
 		h := genRangeHeader(rt, n)
@@ -83,7 +93,7 @@ func TestOracleRejects(t *testing.T) {
 		{"416 for satisfiable", "bytes=1-4", obs{Status: 416, Header: hdr()}, "C20/x/inside/416-although-satisfiable"},
 		{"416 for suffix", "bytes=-4", obs{Status: 416, Header: hdr()}, "C20/x/suffix/416-although-satisfiable"},
 		{"short full", "bytes=abc", obs{Status: 200, Header: hdr(), CL: 9, Body: []byte("012345678")}, "C20/x/malformed/full-content-mismatch"},
-		{"206 other unit", "items=0-1", obs{Status: 206, Header: hdr("Content-Range", "bytes 0-1/10"), CL: 2, Body: []byte("01")}, "C20/x/other-unit/answered-as-bytes-range"},
+		{"206 other unit", "items=0-1", obs{Status: 206, Header: hdr("Content-Range", "bytes 0-1/10"), CL: 2, Body: []byte("01")}, "C20/x/other-unit/treated-as-bytes-range"},
 		{"cl mismatch", "bytes=0-1", obs{Status: 206, Header: hdr("Content-Range", "bytes 0-1/10"), CL: 3, Body: []byte("01")}, "C20/x/inside/content-length-mismatch"},
 	}
 	for _, c := range cases {
